@@ -537,8 +537,8 @@ def race_pairs():
         for a, b in ((('add', 'p2'), ('pstate', 'p1', rps.PMGR_ACTIVE)),
                      (('add', 'p2'), ('pstate', 'p1', rps.DONE)),
                      (('remove', 'p1'), ('pstate', 'p1', rps.PMGR_ACTIVE)),
-                     (('add', 'p2'), ('tfinal', 't0')),
-                     (('pstate', 'p1', rps.DONE), ('tfinal', 't0'))):
+                     (('add', 'p2'), ('tfinal', 't0'))):
+            # (two state notifications never race: one subscriber thread)
             out.append((prefix, a, b))
     return out
 
